@@ -32,6 +32,7 @@ AllInv ==
   /\ SizesAndTrailing
   /\ PredictedIsActual
   /\ LengthMonotone
+  /\ SameLengthSameClass
   /\ BatchesArePure
 FailedInvs ==
   (IF TypeOK THEN {} ELSE {"TypeOK"})
@@ -41,6 +42,7 @@ FailedInvs ==
   \cup (IF SizesAndTrailing THEN {} ELSE {"SizesAndTrailing"})
   \cup (IF PredictedIsActual THEN {} ELSE {"PredictedIsActual"})
   \cup (IF LengthMonotone THEN {} ELSE {"LengthMonotone"})
+  \cup (IF SameLengthSameClass THEN {} ELSE {"SameLengthSameClass"})
   \cup (IF BatchesArePure THEN {} ELSE {"BatchesArePure"})
 Diag == IOEnv.PROGRESS = "1"
 
